@@ -223,7 +223,8 @@ def check_scatter(rep, snap, kind, entry, coords, label, kw, multi):
     else:
         want_texts = [label] if label else []
     rep.cnt("labels_checked")
-    if snap["texts"] != want_texts:
+    # empty annotations are not labels: compare the non-empty texts, in order
+    if [t for t in snap["texts"] if t != ""] != [t for t in want_texts if t != ""]:
         rep.viol("labels", "%s drew labels %r, requested %r" % (ctx, snap["texts"], want_texts), sig={"entry": entry})
     if snap["title"] != want_title:
         rep.viol("title", "%s has title %r, requested %r" % (ctx, snap["title"], want_title), sig={"entry": entry})
@@ -249,10 +250,10 @@ def run_entry(rep, S, entry, call, save_path):
     rep.cnt("figures")
     if save_path is None:
         rep.cnt("getfig_returns")
-        if ret is None or not hasattr(ret, "gcf"):
+        if ret is None or not (hasattr(ret, "gcf") or hasattr(ret, "axes")):
             rep.viol("getfig_return", "%s with getFig=True returned %r" % (entry, ret), sig={"entry": entry})
             return None
-        snap = snapshot(ret.gcf())
+        snap = snapshot(ret.gcf() if hasattr(ret, "gcf") else ret)      # pyplot handle or a Figure
         plt.close("all")
         return snap
     if not _st["saved"]:
